@@ -243,6 +243,13 @@ pub fn check(case: &Case, p: &mut Probe) -> Check {
     // all ones), whatever they yield (a panic is caught, as a worker thread's supervisor would); the
     // well-formed calls that follow on the same thread must be unaffected
     if case.msg_seed % 5 == 3 && !FUZZ_MODE.load(std::sync::atomic::Ordering::Relaxed) {
+        // ... and a constructor call on a matrix with more rows than columns (outside the constructor's domain)
+        let mut tall = ldpc_toolbox::sparse::SparseMatrix::new(n + 1, n);
+        for i in 0..n {
+            tall.insert(i, i);
+            tall.insert(i + 1, i);
+        }
+        let _ = guarded(|| Encoder::from_h(&tall));
         for len in [k.saturating_sub(1), k + 3] {
             if len != k {
                 let _ = guarded(|| enc.encode(&to_gf2(&vec![1u8; len])));
@@ -272,8 +279,11 @@ pub fn check(case: &Case, p: &mut Probe) -> Check {
         // (owned, reversed view, strided views, offset sub-range): encode takes any ArrayBase
         let lay = ((case.msg_seed as usize).wrapping_add(t) % LAYOUTS as usize) as u8;
         let gmsg: Vec<GF2> = to_gf2(&msg).to_vec();
-        let cw = guarded(|| with_layout(&gmsg, GF2::one(), lay, |v| enc.encode(&v))).map_err(|e| Fail::new("encode-panic", format!("encode panicked (message layout {}): {e}", layout_name(lay))))?;
+        // every eighth case: the encoder built on this thread encodes on another one
+        let moved = case.msg_seed % 8 == 6;
+        let cw = guarded(|| with_layout(&gmsg, GF2::one(), lay, |v| if moved { on_other_thread(|| enc.encode(&v)) } else { enc.encode(&v) })).map_err(|e| Fail::new("encode-panic", format!("encode panicked (message layout {}): {e}", layout_name(lay))))?;
         let cw = from_gf2(&cw);
+        p.class_if(moved, "encoder-used-on-another-thread");
         p.class_if(lay != 0, "message-in-non-standard-layout");
         p.inner += 1;
         ensure!(cw.len() == n, "length", "codeword has length {} instead of {n}", cw.len());
@@ -300,12 +310,20 @@ pub fn check(case: &Case, p: &mut Probe) -> Check {
 pub fn large_strategy(_t: Tier) -> BoxedStrategy<Case> {
     // tall shapes (many checks, few message columns) and, one in four, flat shapes whose message is
     // several hundred bits long (beyond any block width of a batched or parallel product)
-    prop_oneof![3 => (60usize..=140, 1usize..=70, 0..3u8, any::<u64>()), 1 => (2usize..=24, 200usize..=1100, 0..3u8, any::<u64>())]
+    // `w64`: exact multiples of the machine word and their neighbours (bit-packed rows, lane widths)
+    let w64 = || prop_oneof![Just(63usize), Just(64), Just(65), Just(127), Just(128), Just(129), Just(192), Just(256)];
+    prop_oneof![
+        6 => (60usize..=140, 1usize..=70, 0..3u8, any::<u64>()),
+        2 => (2usize..=24, 200usize..=1100, 0..3u8, any::<u64>()),
+        1 => (w64(), prop_oneof![1usize..=70, 65usize..=200], 0..3u8, any::<u64>()),
+        1 => (2usize..=24, w64().prop_map(|k| if k < 128 { k * 4 } else { k }), 0..3u8, any::<u64>()),
+        1 => (w64().prop_map(|r| r.min(129)), w64(), 0..3u8, any::<u64>())
+    ]
         .prop_flat_map(|(r, k, kind, msg_seed)| {
             (
                 Just((r, k, kind, msg_seed)),
                 Just((0..r).collect::<Vec<usize>>()).prop_shuffle(),
-                proptest::collection::vec((any::<u16>(), any::<u16>()), 0..=(3 * r + if k >= 200 { 2 * k } else { 0 })),
+                proptest::collection::vec((any::<u16>(), any::<u16>()), 0..=(3 * r + if k >= 100 { 2 * k } else { 0 })),
                 proptest::collection::vec((any::<u16>(), any::<u16>()), 0..=12),
                 (any::<u16>(), any::<u16>()),
             )
@@ -466,7 +484,7 @@ pub fn property() -> Property {
         id: "C02",
         subs: vec![Box::new(Sub {
             name: "encoder",
-            rule: "H with 1 <= r <= n <= 16 (thorough 48) built by class: exact staircase tail + random H0; near-staircase (one toggled tail cell anywhere incl. row 0, staircase shifted by one column); [A | P L U] with a random invertible tail; uniform dense; singular tail by construction (duplicated column, zero column, a row equal to the sum of two others); square (k = 0); single row; ones inserted in shuffled order. Oracle: own GF(2) rank of the last r columns decides Ok / Err(SubmatrixNotInvertible), never a panic; in a fifth of the cases encode is first called with messages of a wrong length (outcome ignored, a panic caught); for Ok all 2^k messages (k <= 8) or 64 pseudo-random ones, handed over in six memory layouts in turn (owned, reversed view, stride 2, stride -2, offset sub-range, owned with negative stride): length n, first k symbols = message, own H c = 0, encode(0) = 0, linearity on consecutive pairs. Non-trivial = (k >= 1, r >= 2, invertible tail) or (singular tail, r >= 2); inner = encoded messages",
+            rule: "H with 1 <= r <= n <= 16 (thorough 48) built by class: exact staircase tail + random H0; near-staircase (one toggled tail cell anywhere incl. row 0, staircase shifted by one column); [A | P L U] with a random invertible tail; uniform dense; singular tail by construction (duplicated column, zero column, a row equal to the sum of two others); square (k = 0); single row; ones inserted in shuffled order. Oracle: own GF(2) rank of the last r columns decides Ok / Err(SubmatrixNotInvertible), never a panic; in a fifth of the cases the constructor is first handed a matrix with more rows than columns and encode messages of a wrong length (outcomes ignored, panics caught); for Ok all 2^k messages (k <= 8) or 64 pseudo-random ones, handed over in six memory layouts in turn (owned, reversed view, stride 2, stride -2, offset sub-range, owned with negative stride): length n, first k symbols = message, own H c = 0, encode(0) = 0, linearity on consecutive pairs. Non-trivial = (k >= 1, r >= 2, invertible tail) or (singular tail, r >= 2); inner = encoded messages",
             cases: |t| t.pick(300_000, 6_000_000),
             strategy: |t| strategy(t.pick(16, 48)),
             check,
@@ -474,7 +492,7 @@ pub fn property() -> Property {
         }),
         Box::new(Sub {
             name: "encoder-large",
-            rule: "60..=140 rows, 1..=70 message columns (one in four: 2..=24 rows and 200..=1100 message columns with up to 2k + 3r ones in the message part), sparse message part; tail = exact staircase, a permutation matrix times a unit lower triangular one (invertible, dense path with row exchanges) or a permutation matrix with one column duplicated or removed (singular); 64 pseudo-random messages per accepted matrix; same oracle",
+            rule: "60..=140 rows, 1..=70 message columns (one in four: 2..=24 rows and 200..=1100 message columns with up to 2k + 3r ones in the message part; three in eleven: a number of rows and / or of message columns from {63, 64, 65, 127, 128, 129, 192, 256}, the word-size multiples and their neighbours), sparse message part; tail = exact staircase, a permutation matrix times a unit lower triangular one (invertible, dense path with row exchanges) or a permutation matrix with one column duplicated or removed (singular); 64 pseudo-random messages per accepted matrix; same oracle",
             cases: |t| t.pick(1_500, 50_000),
             strategy: large_strategy,
             check,
